@@ -235,3 +235,35 @@ Definition cx_types (c : cx) : list (cx_res cx_ty) :=
 
 Definition cx_flags (c : cx) : list (bool * bool) :=
   map (fun n => (cx_is_true n, cx_is_false n)) (cx_exprs c).
+
+(** the observations the model makes while it runs a history: for every call that returned
+    a valid expression reference, the reference and what it denoted at that moment *)
+Fixpoint cx_observe (ops : list cx_op) (c : cx) : list (N * cx_key) :=
+  match ops with
+  | [] => []
+  | o :: t =>
+      let (c', r) := cx_run_op o c in
+      match r with
+      | CxOk (CxExpr i) =>
+          match cx_lookup c' i with
+          | Some n => (i, cx_key_of c' n) :: cx_observe t c'
+          | None => cx_observe t c'
+          end
+      | _ => cx_observe t c'
+      end
+  end.
+
+(** [Context::symbol] takes a [StringRef]; outside the crate a [StringRef] can only be
+    obtained from [Context::string] or read off a node, so it is always valid.  A history
+    is well formed when its [CoSymbol] calls respect that. *)
+Definition cx_op_names_ok (c : cx) (o : cx_op) : bool :=
+  match o with
+  | CoSymbol n _ => match cx_nth (cx_strings c) n with Some _ => true | None => false end
+  | _ => true
+  end.
+
+Fixpoint cx_hist_ok (ops : list cx_op) (c : cx) : bool :=
+  match ops with
+  | [] => true
+  | o :: t => cx_op_names_ok c o && cx_hist_ok t (fst (cx_run_op o c))
+  end.
